@@ -185,3 +185,27 @@ func H_C19_repeat() {
 	verif.Assert(err == nil && verif.Eq(got, []any{Map{"id": float64(1), "tags": []any{"a", "b"}, "f": "a"}, Map{"id": float64(2), "tags": []any{"c"}, "f": "c"}}), "later-query-unaffected")
 	verif.Reach("end")
 }
+
+// H_C19_nested: a fault inside an inner array of a nested FROM fails the
+// whole query, wherever the inner array stands and whichever call fails.
+func H_C19_nested() {
+	form := verif.Choose("form", 3)
+	faultAt, faultCalls = verif.Choose("fault-at", 6), 0
+	RegisterFunction("vfault", faultFunc)
+	x := verif.F64("a")
+	verif.Assume(x == x)
+	r := func(v float64) any { return Map{"a": v} }
+	doc := Map{"n": []any{[]any{r(x), r(2)}, []any{r(3), r(x + 1)}, []any{r(5)}}}
+	sql := []string{"SELECT a FROM n WHERE vfault(a) >= 0 OR a > 0", "SELECT vfault(a) AS v FROM n", "SELECT a FROM `mix=>n` WHERE vfault(a) >= 0 OR a > 0"}[form]
+	got, err := runQueryQuiet(doc, sql)
+	fired := faultAt != 0 && faultCalls >= faultAt
+	if fired {
+		verif.Assert(err != nil, "fault-surfaces-as-error")
+	}
+	if err != nil {
+		verif.Assert(len(got) == 0, "no-rows-with-error")
+	} else {
+		verif.Assert(len(got) == 3 || form == 2, "nesting-kept")
+	}
+	verif.Reach("end")
+}
